@@ -256,7 +256,9 @@ def _worker_main():
     import importlib
 
     import boot  # noqa: F401
-    instrument_kernels()
+    from props import rng_common as _rc   # the module object the job handlers use (this file runs as __main__)
+
+    _rc.instrument_kernels()
     out.write(json.dumps({"ready": True}) + "\n")
     out.flush()
     for line in sys.stdin:
